@@ -605,6 +605,16 @@ let suite_dumpcheck (line : string) : string =
         (String.concat ";" views)
   | _ -> failwith "bad dumpcheck case"
 
+(* ---------- suite: wspec (contents after every prefix of the write tokens) ---------- *)
+let suite_wspec (line : string) : string =
+  match split_nonempty ' ' line with
+  | id :: ws ->
+      let ops = List.concat_map (fun w -> [ parse_hop w; HScan ]) ws in
+      let res = spec_run spec_init (HScan :: ops) in
+      let scans = List.filter_map (function RPairs m -> Some (show_pairs m) | _ -> None) res in
+      Printf.sprintf "%s %s" id (String.concat ";" scans)
+  | _ -> failwith "bad wspec case"
+
 let () =
   let suite = Sys.argv.(1) in
   let f =
@@ -619,6 +629,7 @@ let () =
     | "vfn" -> suite_vfn
     | "dbhist" -> suite_dbhist
     | "dumpcheck" -> suite_dumpcheck
+    | "wspec" -> suite_wspec
     | _ -> failwith ("unknown suite " ^ suite)
   in
   try
